@@ -566,6 +566,45 @@ static inline void iface(W& w, int prior, size_t sc, size_t vlen)
     w.outcome(mc::mix(mc::fnv_s(k), mc::mix(raw.size(), prior0)));
 }
 
+// A builder object that was MOVED FROM (e.g. pushed into a queue with std::move) and is then used again: setData, then the header
+// fields. It is an object of its class like any other - the result is accepted by the class's own validity check and the decoder,
+// and its raw bytes equal those of a fresh object treated the same way.
+template <class T, class Hdr, class Set>
+static void movedFrom(W& w, const char* cls, uint8_t mt, uint8_t pt, uint32_t fullType, size_t len, Hdr hdr, Set set)
+{
+    T p;
+    hdr(p);
+    Bytes first = pat(7, 6);
+    set(p, first);
+    T taken(std::move(p));
+    g_sink = taken.getLength();
+    Bytes d = pat(len, 5);
+    set(p, d);
+    hdr(p);
+    w.add(mc::C_TRANS, 3);
+    std::string k = cls;
+    T fresh;
+    set(fresh, d);
+    hdr(fresh);
+    Bytes raw(p.getRawPayload(), p.getRawPayload() + p.getLength()), fr(fresh.getRawPayload(), fresh.getRawPayload() + fresh.getLength());
+    if (raw != fr)
+        w.fail("builder:raw-bytes-depend-on-history:" + k, ofmt("moved-from object, then setData(%zu bytes) and the header fields: raw %s..., fresh object: %s...", len,
+                                                              mc::hex(raw.data(), std::min<size_t>(raw.size(), 40)).c_str(), mc::hex(fr.data(), std::min<size_t>(fr.size(), 40)).c_str()));
+    if (p.getType().getType() != fullType || !p.isValid())
+        w.fail("builder:moved-from-object-lost-its-type:" + k, ofmt("a moved-from %s that was given data again reports type 0x%x, isValid() = %d", cls, p.getType().getType(), (int) p.isValid()));
+    if (!T::isValidPayload(raw.data(), raw.size()))
+        w.fail("builder:own-validity-check-rejects:" + k, "isValidPayload rejects the payload built on a moved-from object");
+    {
+        // through a packet and the decoder, as the object itself (not its raw bytes) would be sent
+        A::Packet pk;
+        pk.setPayload(p);
+        if (pk.getPayloadType() != pt || (uint8_t) pk.getMessageType() != mt)
+            w.fail("builder:moved-from-object-lost-its-type:" + k, ofmt("a packet given the rebuilt moved-from %s reports message type 0x%x, payload type 0x%x", cls, (unsigned) pk.getMessageType(), pk.getPayloadType()));
+    }
+    decodeCheck(w, cls, mt, pt, raw, fullType);
+    w.outcome(mc::mix(mc::fnv_s(k), mc::mix(len, 77)));
+}
+
 static inline void runCase(W& w, const std::string& cs)
 {
     auto kv = mc::kv_parse(cs);
@@ -576,6 +615,29 @@ static inline void runCase(W& w, const std::string& cs)
     int prior = atoi(kv["prior"].c_str());
     size_t len = strtoull(kv["len"].c_str(), nullptr, 10);
     int hv = atoi(kv["hv"].c_str());
+    if (kv.count("moved"))
+    {
+        auto setB = [](auto& p, const Bytes& d) { p.setData(d.data(), (uint8_t) d.size()); };
+        if (cls == "can")
+            movedFrom<A::CanPayload>(w, "CanPayload", ref::MT_DATA, ref::PT_CAN, A::PayloadType::can, len, [](A::CanPayload& p) { p.setId(0x123); p.setIde(true); }, setB);
+        else if (cls == "canfd")
+            movedFrom<A::CanFdPayload>(w, "CanFdPayload", ref::MT_DATA, ref::PT_CANFD, A::PayloadType::canFd, len, [](A::CanFdPayload& p) { p.setId(0x77); p.setCrc(0x1ABCDE); }, setB);
+        else if (cls == "lin")
+            movedFrom<A::LinPayload>(w, "LinPayload", ref::MT_DATA, ref::PT_LIN, A::PayloadType::lin, len, [](A::LinPayload& p) { p.setLinId(0x2A); p.setChecksum(0xC3); }, setB);
+        else if (cls == "eth")
+            movedFrom<A::EthernetPayload>(w, "EthernetPayload", ref::MT_DATA, ref::PT_ETH, A::PayloadType::ethernet, len, [](A::EthernetPayload& p) { p.setFlags(0x00C4); },
+                                          [](A::EthernetPayload& p, const Bytes& d) { p.setData(d.data(), (uint16_t) d.size()); });
+        else if (cls == "analog")
+            movedFrom<A::AnalogPayload>(w, "AnalogPayload", ref::MT_DATA, ref::PT_ANALOG, A::PayloadType::analog, len & ~(size_t) 1, [](A::AnalogPayload& p) { p.setSampleInterval(0.25f); },
+                                        [](A::AnalogPayload& p, const Bytes& d) { p.setData(d.data(), d.size()); });
+        else if (cls == "cm")
+            movedFrom<A::CaptureModulePayload>(w, "CaptureModulePayload", ref::MT_STATUS, ref::PT_CM, A::PayloadType::cmStatMsg, len, [](A::CaptureModulePayload& p) { p.setUptime(0x0102030405060708ull); },
+                                               [](A::CaptureModulePayload& p, const Bytes& d) { std::string s(d.begin(), d.end()); for (auto& ch : s) ch = (char) ('a' + (uint8_t) ch % 26); p.setData(s, "sn", "", s, d); });
+        else if (cls == "if")
+            movedFrom<A::InterfacePayload>(w, "InterfacePayload", ref::MT_STATUS, ref::PT_IF, A::PayloadType::ifStatMsg, len, [](A::InterfacePayload& p) { p.setInterfaceId(0x01020304); },
+                                           [](A::InterfacePayload& p, const Bytes& d) { p.setData(d.data(), (uint16_t) d.size(), d.data(), (uint16_t) (d.size() / 2)); });
+        return;
+    }
     if (cls == "can") canLike<A::CanPayload>(w, "CanPayload", ref::PT_CAN, A::PayloadType::can, prior, len, hv);
     else if (cls == "canfd") canLike<A::CanFdPayload>(w, "CanFdPayload", ref::PT_CANFD, A::PayloadType::canFd, prior, len, hv);
     else if (cls == "lin") lin(w, prior, len, hv);
@@ -695,6 +757,10 @@ static int runC13(mc::Run& run, const mc::Options& opt)
             for (size_t len : {(size_t) 124, (size_t) 125, (size_t) 126, (size_t) 127, (size_t) 128, (size_t) 200, (size_t) 252, (size_t) 253, (size_t) 254, (size_t) 255, (size_t) 256,
                                (size_t) 382, (size_t) 383, (size_t) 384, (size_t) 32766, (size_t) 32767, (size_t) 32768})
                 cases.push_back(ofmt("cls=cmx;prior=%d;sec=%d;len=%zu", prior, sec, len));
+    // builder objects that were moved from and are used again
+    for (const char* c : {"can", "canfd", "lin", "eth", "analog", "cm", "if"})
+        for (size_t len : {(size_t) 0, (size_t) 1, (size_t) 8, (size_t) 64, (size_t) 200})
+            cases.push_back(ofmt("cls=%s;moved=1;prior=0;len=%zu", c, len));
     // the builder call under test aborted by the failure of its n-th allocation (every n) and then repeated
     {
         std::vector<std::string> ab;
